@@ -7,7 +7,7 @@
 //! * the order in which the model lists its classes is not prescribed by the statement: everything is
 //!   aligned by label value (user priors, which are positional, must be stored exactly as supplied);
 //! * the MAP oracle never uses the harness's own statistics, only the reported ones; a class is accepted
-//!   when its score is within 1e-9·S (S = largest Σ|terms| over the classes) plus an explicit forward
+//!   when its score is within 1e-9·max(S_j, S_best) (S = Σ|terms| of a class) plus an explicit forward
 //!   rounding bound of the maximum;
 //! * Gaussian moments: mean within 1e-9·max|x| of the compensated mean, variance within 1e-9·variance of
 //!   the compensated two-pass population variance. The signature of a moment violation is the measured
@@ -308,8 +308,9 @@ fn check_map(c: &mut Case, v: &str, wd: &str, classes: &[f64], qkind: &[&'static
                 best = j;
             }
         }
-        let smax = sc.iter().map(|x| x.s).fold(0.0f64, f64::max);
-        let accepted: Vec<bool> = (0..sc.len()).map(|j| sc[j].score >= sc[best].score - (TOL_TIE * smax + sc[j].err + sc[best].err)).collect();
+        // slack of class j against the maximum: relative to the magnitudes of the two sums being compared
+        let slack = |j: usize| TOL_TIE * sc[j].s.max(sc[best].s) + sc[j].err + sc[best].err;
+        let accepted: Vec<bool> = (0..sc.len()).map(|j| sc[j].score >= sc[best].score - slack(j)).collect();
         let n_acc = accepted.iter().filter(|x| **x).count();
         let hit: Vec<usize> = (0..classes.len()).filter(|&j| classes[j] == preds[q]).collect();
         if !c.check(&format!("{}.predict-returns-a-class", v), hit.len() == 1, &sg, || format!("predicted {} is not one of the classes {:?}", preds[q], classes)) {
@@ -327,7 +328,7 @@ fn check_map(c: &mut Case, v: &str, wd: &str, classes: &[f64], qkind: &[&'static
                 best,
                 classes[best],
                 sc.iter().map(|x| x.score).collect::<Vec<f64>>(),
-                TOL_TIE * smax + sc[j].err + sc[best].err
+                slack(j)
             )
         });
         if n_acc < sc.len() {
@@ -1182,19 +1183,19 @@ fn main() {
             "the order in which a model lists its classes is not checked; all per-class statistics are aligned by label value, user priors must be stored positionally as supplied",
             "Gaussian moments (f64 only): |mean - ref| <= 1e-9·max|x|, |var - ref| <= 1e-9·var against compensated two-pass references; the signature of a moment violation is the decade of E[x^2]/Var of the column",
             "count-based log-probabilities: |obs - exp| <= 1e-12·max(1,|exp|) (f64) / 1e-5 (f32, alpha and priors rounded to f32 first); normalisation Σ exp = 1 ± 1e-10 / 1e-4; priors sum to 1 ± 1e-12 / 1e-5",
-            "MAP: scores recomputed in f64 from the REPORTED statistics; a class is accepted within 1e-9·max_k Σ|terms_k| plus a forward rounding bound 8(d+3)·eps_T·Σ|terms| (and the conditioning of ln(1-p) for Bernoulli) of the maximum",
+            "MAP: scores recomputed in f64 from the REPORTED statistics; a class j is accepted within 1e-9·max(Σ|terms_j|, Σ|terms_best|) plus a forward rounding bound 8(d+3)·eps_T·Σ|terms| (and the conditioning of ln(1-p) for Bernoulli) of the maximum",
             "Bernoulli binarisation maps x > threshold to 1 (documented by MatrixPreprocessing::binarize); cases with values equal to the threshold carry their own signature",
             "categorical n_categories = largest code + 1 per feature (categories are enumerated 0..max like the class labels)",
         ],
         families: vec![
-            Family::new("gaussian", 4000, 70000, gaussian),
-            Family::new("gaussian_offset", 600, 10000, gaussian_offset),
-            Family::new("multinomial", 4500, 70000, multinomial),
-            Family::new("bernoulli", 4500, 70000, bernoulli),
+            Family::new("gaussian", 6000, 80000, gaussian),
+            Family::new("gaussian_offset", 1000, 15000, gaussian_offset),
+            Family::new("multinomial", 6000, 80000, multinomial),
+            Family::new("bernoulli", 6000, 80000, bernoulli),
             Family::new("bernoulli_enum", 3584, 3584, bernoulli_enum).exhaustive(true, true),
-            Family::new("categorical", 4500, 70000, categorical),
+            Family::new("categorical", 6000, 80000, categorical),
         ],
-        min_nontrivial: 3000,
+        min_nontrivial: 4000,
         case_timeout_s: 120,
     });
 }
